@@ -30,7 +30,7 @@ HEADER = "From Coq Require Import ZArith List.\nImport ListNotations.\nFrom IBL.
 TRUSTED = [
     "Coq 8.16.1 kernel + vm_compute (no native_compute); all C04 theorems: Closed under the global context",
     "hand-written model coq/C04/Model.v of neuropixel.NP2Converter.process (steps = calls of Path.mkdir, open, "
-    "_split2shanks, write_meta_data, check_NP24, Path.unlink, mtscomp.compress, Path.rename, delete_NP24), tied "
+    "_split2shanks, write_meta_data, check_NP24, Path.unlink, mtscomp.compress, Path.rename (.ch_tmp, .cbin_tmp), delete_NP24), tied "
     "to $IBLNPX_REPO/src by this run's correspondence (outcome, attributes, call sequence, per-path state)",
     "abstraction: a path is Complete iff its bytes equal the reference bytes of that path; the references come from "
     "a fault-free conversion of the same recording and are anchored independently (ap.bin = NumPy column gather "
@@ -56,8 +56,9 @@ CONFIGS = {
     "np1w1": (2, "np2split/NP1_meta/_spikeglx_ephysData_g0_t0.imec0.ap.meta", 0, 1, False),
 }
 NS_OF_W = {1: 1200, 2: 1800, 3: 2400}
-FK = {".bin": 0, ".cbin": 1, ".cbin_tmp": 2, ".ch": 3, ".meta": 4}
-FKN = ["bin", "cbin", "cbin_tmp", "ch", "meta"]
+FK = {".bin": 0, ".cbin": 1, ".cbin_tmp": 2, ".ch": 3, ".meta": 4, ".ch_tmp": 5}
+FKN = ["bin", "cbin", "cbin_tmp", "ch", "meta", "ch_tmp"]
+NFK = len(FKN)
 
 
 class Injected(Exception):
@@ -82,12 +83,12 @@ def universe(root, n):
     """[(code, real path)] in the order of Run.v `universe`"""
     out = []
     for oc in (1, 2):
-        out += [(oc * 10 + f, owner_path(root, oc, f)) for f in range(5)]
+        out += [(oc * 10 + f, owner_path(root, oc, f)) for f in range(NFK)]
     for k in range(n):
         out.append((1000 + k, root / ("probe00" + chr(97 + k))))
         for e in (0, 1):
             oc = 10 + 2 * k + e
-            out += [(oc * 10 + f, owner_path(root, oc, f)) for f in range(5)]
+            out += [(oc * 10 + f, owner_path(root, oc, f)) for f in range(NFK)]
     return out
 
 
@@ -201,7 +202,7 @@ def build_reference(base, cfg):
     sr.compress_file()
     sr.close()
     exp[11] = exp[12] = sha(oc / "probe00" / (NAME + ".ap.cbin"))
-    exp[13] = sha(oc / "probe00" / (NAME + ".ap.ch"))
+    exp[13] = exp[15] = sha(oc / "probe00" / (NAME + ".ap.ch"))
     r = mtscomp.decompress(oc / "probe00" / (NAME + ".ap.cbin"), oc / "probe00" / (NAME + ".ap.ch"))
     assert np.array_equal(r[:], dat), "compressed original does not decompress to the original"
     r.close()
@@ -225,6 +226,8 @@ def build_reference(base, cfg):
                 exp[code] = h
                 if code % 10 == 1:
                     exp[code + 1] = h      # .cbin_tmp holds the bytes of the finished .cbin
+                if code % 10 == 3:
+                    exp[code + 2] = h      # .ch_tmp holds the bytes of the finished .ch
         if kind == 0:
             meta = spikeglx.read_meta_data(ob.with_suffix(".meta"))
             shank = spikeglx._map_channels_from_meta(meta)["shank"]
@@ -344,9 +347,14 @@ def run_real(root, cfg, exp, r):
                 p = owner_path(root, 10 + 2 * corrupt, 0)
                 S.hit(500000 + pcode(root, p))
                 if p.exists():
+                    # damage one AP sample (never the sync column): first, middle or last frame
+                    ns = NS_OF_W[w]
+                    row = p.stat().st_size // ns
+                    off = {0: 0, 1: (ns // 2) * row + 6, 2: (ns - 1) * row}[r.get("cpos", 0)] if row else 0
                     with builtins.open(p, "r+b") as f:
-                        b = f.read(8)
-                        f.seek(0)
+                        f.seek(off)
+                        b = f.read(2)
+                        f.seek(off)
                         f.write(bytes(x ^ 0x55 for x in b))
             S.pre()
             res = o_check(self)        # a failed comparison raises: the step is not counted
@@ -397,7 +405,8 @@ def run_real(root, cfg, exp, r):
         def rename(self, target):
             S.pre()
             res = o_rename(self, target)
-            S.done(1000000 + pcode(root, self) // 10)
+            c = pcode(root, self)
+            S.done((1200000 if c % 10 == 5 else 1000000 if c % 10 == 2 else 1300000) + c // 10)
             return res
 
         def delete(self):
@@ -522,7 +531,7 @@ def outputs_valid(cfg, r, s):
         if s[a + 4] != 2:
             bad.append("meta of owner %d" % oc)
         if r["comp"]:
-            if not (s[a + 1] == 2 and s[a + 3] == 2 and s[a] == 0 and s[a + 2] == 0):
+            if not (s[a + 1] == 2 and s[a + 3] == 2 and s[a] == 0 and s[a + 2] == 0 and s[a + 5] == 0):
                 bad.append("compressed output of owner %d" % oc)
         elif s[a] != 2:
             bad.append("binary output of owner %d" % oc)
@@ -602,8 +611,11 @@ def oracle(ctx, cfg, runs, obs, pre0, seen):
 # ----------------------------------------------------------------------------
 # exploration (worker processes)
 # ----------------------------------------------------------------------------
-def mkrun(t=0, post=1, dele=0, comp=1, ow=0, crash=-1, corrupt=-1):
-    return {"t": t, "post": post, "del": dele, "comp": comp, "ow": ow, "crash": crash, "corrupt": corrupt}
+def mkrun(t=0, post=1, dele=0, comp=1, ow=0, crash=-1, corrupt=-1, cpos=0):
+    """cpos: where the adversary damages the shank file (0 first, 1 middle, 2 last frame); the model
+    does not depend on it"""
+    return {"t": t, "post": post, "del": dele, "comp": comp, "ow": ow, "crash": crash, "corrupt": corrupt,
+            "cpos": cpos}
 
 
 def auto_target(cfg, state):
@@ -751,8 +763,8 @@ def make_tasks(ctx, base):
     add("np24s4w1c", [], T if th else rng.sample(T, 3), "all" if th else 4, fo)
     # damaged shank file before verification
     for cfg, k in (("np24s1w3", 0), ("np24s4w2", 0), ("np24s4w2", 3)):
-        add(cfg, [], [mkrun(t=-1, post=1, dele=1, comp=c, ow=o, corrupt=k) for c in (0, 1) for o in (0, 1)][:4 if th else 2],
-            "none", 1)
+        add(cfg, [], [mkrun(t=-1, post=1, dele=1, comp=c, ow=o, corrupt=k, cpos=(c + 2 * o + k) % 3)
+                      for c in (0, 1) for o in (0, 1)][:4 if th else 3], "none", 1)
     # NP2.1: every crash point, fresh and after earlier runs, plain and pre-compressed original
     add("np21w2", [], T if th else [t for t in T if t["post"] == t["del"]], "all", fo)
     for prefix in ([mkrun(t=-1, comp=1)], [mkrun(t=-1, comp=0)], [mkrun(t=-1, comp=1, crash=6)],
